@@ -1029,6 +1029,135 @@ example : ∃ st c, Restored exLc 104857600 exRpc 1 2 st c ∧ st.validators ≠
   · injection hk with hk; subst hk; rfl
   · cases hk
 
+/-! ## the hand-over with failing steps -/
+
+theorem bootWrites_prefix (st : LcState) (s : Stores) (n : Nat) :
+    let r := ((bootWrites st).take n).foldl (fun s w => w s) s
+    r.seen = s.seen ∧ (n < (bootWrites st).length → r.state = s.state) ∧
+    ((bootWrites st).length ≤ n → r.state = some st) := by
+  unfold bootWrites
+  simp only
+  generalize (if st.lastBlockHeight + 1 = 1 then st.initialHeight else st.lastBlockHeight + 1) = height
+  by_cases hc : height > 1 ∧ st.lastValidators ≠ []
+  · rw [if_pos hc]
+    match n with
+    | 0 | 1 | 2 | 3 | 4 => simp
+    | n + 5 => simp; omega
+  · rw [if_neg hc]
+    match n with
+    | 0 | 1 | 2 | 3 => simp
+    | n + 4 => simp; omega
+
+theorem bootstrapFailing_spec (s : Stores) (st : LcState) (k : Nat) :
+    (bootstrapFailing s st k).1.seen = s.seen ∧
+    ((bootstrapFailing s st k).2 = true → (bootstrapFailing s st k).1.state = some st) ∧
+    ((bootstrapFailing s st k).2 = false → (bootstrapFailing s st k).1.state = s.state) := by
+  unfold bootstrapFailing
+  simp only
+  split
+  · have h := bootWrites_prefix st s (bootWrites st).length
+    simp only [List.take_length] at h
+    exact ⟨h.1, fun _ => h.2.2 (Nat.le_refl _), fun h' => by cases h'⟩
+  · rename_i hk
+    have hlt : k - 1 < (bootWrites st).length := by omega
+    have h := bootWrites_prefix st s (k - 1)
+    exact ⟨h.1, fun h' => by simp at h', fun _ => h.2.1 hlt⟩
+
+
+/-- `Bootstrap` without a failing write is `bootstrap` -/
+theorem bootstrapFailing_none (st : LcState) :
+    (bootstrapFailing Stores.empty st 0).2 = true ∧
+    (bootstrapFailing Stores.empty st 0).1.state = (bootstrap Stores.empty st).state := by
+  have h := bootstrapFailing_spec Stores.empty st 0
+  have h2 : (bootstrapFailing Stores.empty st 0).2 = true := by simp [bootstrapFailing]
+  exact ⟨h2, by rw [h.2.1 h2]; simp [bootstrap]⟩
+
+/-- the order and error handling of node/node.go `startStateSync` (anchored by the facts
+`c14_startStateSync_order`, `c14_handover_seen_err_returns`, `c14_handover_boot_err_returns`) -/
+def repoHandCode : HandCode := { commitFirst := true, seenErrReturns := true, bootErrReturns := true }
+
+/-- **the node starts from the restored state only if state AND seen commit are stored**, for
+every failure pattern of the hand-over (`SaveSeenCommit` failing, any write of `Bootstrap`
+failing, `SwitchToFastSync` failing): if afterwards the state store is not empty — so that a
+(re)starting node goes on from the restored state instead of state syncing again — or the node
+switched to block sync, then the seen commit of the restored height is stored; and if it switched,
+the state store holds exactly the restored state. -/
+theorem handover_starts_only_if_both_stored (f : Faults) (st : LcState) (c : LcCommit) :
+    let r := handOver repoHandCode f st c
+    (r.2 = true ∨ r.1.state ≠ none) →
+      r.1.seen st.lastBlockHeight = some c ∧ (r.2 = true → r.1.state = some st) := by
+  unfold handOver repoHandCode
+  simp only [if_true]
+  cases hs : f.seenFails with
+  | true => simp [Stores.empty]
+  | false =>
+    simp only [Bool.false_eq_true, if_false, Bool.not_true, Bool.false_and]
+    have hb := bootstrapFailing_spec (saveSeenCommit Stores.empty st.lastBlockHeight c) st f.bootFailAt
+    cases hr : bootstrapFailing (saveSeenCommit Stores.empty st.lastBlockHeight c) st f.bootFailAt with
+    | mk s2 ok2 =>
+      rw [hr] at hb
+      simp only at hb
+      have hseen : s2.seen st.lastBlockHeight = some c := by rw [hb.1]; simp [saveSeenCommit, upd]
+      cases ok2 with
+      | true => simp [hseen, hb.2.1 rfl]
+      | false =>
+        have : s2.state = none := by rw [hb.2.2 rfl]; rfl
+        simp [hseen, this]
+
+/-- with both error paths returning, the node switches to block sync only after both writes
+succeeded — in either order of the writes -/
+theorem handover_switches_only_after_both (commitFirst : Bool) (f : Faults) (st : LcState) (c : LcCommit) :
+    let r := handOver { commitFirst := commitFirst, seenErrReturns := true, bootErrReturns := true } f st c
+    r.2 = true → r.1.seen st.lastBlockHeight = some c ∧ r.1.state = some st := by
+  unfold handOver
+  cases commitFirst
+  · -- state first
+    simp only [Bool.false_eq_true, if_false]
+    have hb := bootstrapFailing_spec Stores.empty st f.bootFailAt
+    cases hr : bootstrapFailing Stores.empty st f.bootFailAt with
+    | mk s1 ok1 =>
+      rw [hr] at hb
+      simp only at hb
+      cases ok1 with
+      | false => simp
+      | true =>
+        cases hs : f.seenFails with
+        | true => simp
+        | false => simp [saveSeenCommit, upd, hb.2.1 rfl]
+  · simp only [if_true]
+    cases hs : f.seenFails with
+    | true => simp
+    | false =>
+      simp only [Bool.false_eq_true, if_false, Bool.not_true, Bool.false_and]
+      have hb := bootstrapFailing_spec (saveSeenCommit Stores.empty st.lastBlockHeight c) st f.bootFailAt
+      cases hr : bootstrapFailing (saveSeenCommit Stores.empty st.lastBlockHeight c) st f.bootFailAt with
+      | mk s2 ok2 =>
+        rw [hr] at hb
+        simp only at hb
+        cases ok2 with
+        | false => simp
+        | true =>
+          intro _
+          simp only [Bool.not_true, Bool.false_and, Bool.false_eq_true, if_false]
+          exact ⟨by rw [hb.1]; simp [saveSeenCommit, upd], hb.2.1 rfl⟩
+
+/-- an error of `SaveSeenCommit` that is only logged (the hand-over goes on) breaks it: the node
+switches to block sync from the restored state without the commit of its last block -/
+theorem handover_ignoring_seen_error_fails (st : LcState) (c : LcCommit) :
+    let r := handOver { commitFirst := true, seenErrReturns := false, bootErrReturns := true }
+      { seenFails := true, bootFailAt := 0, switchFails := false } st c
+    r.2 = true ∧ r.1.state = some st ∧ r.1.seen st.lastBlockHeight = none := by
+  have hb := bootstrapFailing_spec Stores.empty st 0
+  have hok : (bootstrapFailing Stores.empty st 0).2 = true := by simp [bootstrapFailing]
+  unfold handOver
+  simp only [if_true]
+  cases hr : bootstrapFailing Stores.empty st 0 with
+  | mk s2 ok2 =>
+    rw [hr] at hb hok
+    simp only at hb hok
+    subst hok
+    simp [hb.2.1 rfl, hb.1, Stores.empty]
+
 /-! non-vacuity of `bootstrapped_state_is_light_verified`: a concrete chain and honest providers
 (the example chain of Props/C09.lean, copied), snapshot height 1, trust root = block 1 -/
 namespace ExLight
